@@ -219,12 +219,28 @@ private:
     mem_cache_entry():storage(nullptr){}
     mem_cache_entry(double* p, uint8_t o):storage(p),offset(o){}
   };
+  ///One cache per dimension. Whatever is still cached when the set is
+  ///destroyed (for a thread-local set: when its thread ends) is released.
+  struct mem_cache_set{
+    detail::cache<mem_cache_entry,32> caches[SQUIDS_MAX_HILBERT_DIM+1];
+    detail::cache<mem_cache_entry,32>& operator[](unsigned int dim){ return(caches[dim]); }
+    ~mem_cache_set(){
+      for(unsigned int dim=0; dim<=SQUIDS_MAX_HILBERT_DIM; dim++){
+        while(true){
+          mem_cache_entry cache_result=caches[dim].get();
+          if(!cache_result.storage)
+            break;
+          delete[] (cache_result.storage-cache_result.offset);
+        }
+      }
+    }
+  };
   ///A cache of previously used backing storage blocks
   static
   #ifdef SQUIDS_THREAD_LOCAL
   SQUIDS_THREAD_LOCAL //one cache per thread if supported
   #endif
-  detail::cache<mem_cache_entry,32> storage_cache[SQUIDS_MAX_HILBERT_DIM+1];
+  mem_cache_set storage_cache;
 #endif
   
   ///A helper function which tries to put a memory block into the cache rather
